@@ -36,7 +36,7 @@ TRUSTED = [
     "tools/lua_run.py (LuaCore, the Lua model extracted from Coq) for the --no-std trace comparison",
 ]
 ASSUMPTIONS = [
-    "OS behaviour outside the model, named: a missing `lua` binary and a failing File::create are panics through expect() (status 101; modelled as such and observed); signals (SIGXFSZ, SIGPIPE) are not modelled; a short write is modelled (WroteShort) and provoked with RLIMIT_FSIZE",
+    "OS behaviour outside the model, named: a missing `lua` binary and a failing File::create are panics through expect() (status 101; modelled as such and observed); signals (SIGXFSZ, SIGPIPE) are not modelled (SIGXFSZ is ignored in the file-size-limit classes); a write_all that fails after n bytes is modelled (WriteFails n) and provoked with RLIMIT_FSIZE 4096 / 0",
     "run mode decides `execution failed` by `the child wrote to stderr`, the child's exit status is not read (modelled so; class child=status1-silent shows sylt exits 0 there)",
     "the checks run as uid 0 when the sandbox does: a directory made read-only by permissions cannot be produced then; the unwritable classes are a missing directory (ENOENT), a path below a regular file (ENOTDIR), a path that is a directory (EISDIR), the empty path, and a file-size limit of 0 (create succeeds, the write fails with EFBIG); a chmod 0555 directory is added when not root",
     "when run mode fails to compile, the child is not waited for: its stdout is not ordered with sylt's own and is removed from the observation before comparing",
@@ -44,7 +44,7 @@ ASSUMPTIONS = [
     "error texts: the model treats each error's Display rendering as an opaque string; the tie cuts the real stdout into pieces of the lengths the harness reports for the same errors and checks each piece's header (kind, file, line)",
 ]
 EXPLANATION = ("Theorems over the driver model for all flags and all worlds (exit status iff, errors printed in order + summary, "
-               "-o FILE untouched-or-complete under an atomic write and refuted without it, -o - same bytes, require line); the driver's "
+               "-o FILE untouched-or-complete when the write succeeds, complete whenever the status is 0, refuted for a failing write, -o - same bytes, require line); the driver's "
                "source is re-read into a table on every run and must equal the reviewed one; the built binary is run on the full "
                "flag x program x path x child matrix and compared with the extracted model and with the property directly.")
 
@@ -408,11 +408,12 @@ def world_of(c, obs, outcome, usage):
     if c["out"] == "file":
         if sub in CREATE_FAILS:
             create = "fail:-"
-        elif sub.startswith("fsize-zero"):
-            write = "fail:" + vlib.hexs("File too large (os error 27)")
-        elif sub.startswith("fsize-limit"):
+        elif sub.startswith("fsize-"):
+            # write_all under a file-size limit (SIGXFSZ ignored): the first write is cut at the limit, the next
+            # one fails with EFBIG; what was written before stays in FILE
             n = len(outcome[1]) if outcome[0] == "ok" else 0
-            write = "short:%d" % FSIZE if n > FSIZE else "all"
+            lim = FSIZE if sub.startswith("fsize-limit") else 0
+            write = "fail:%d:%s" % (lim, vlib.hexs("File too large (os error 27)")) if n > lim else "all"
     lua = "0" if (c["out"] == "run" and sub == "missing-lua") else "1"
     ch = "%s:%s:%d" % (vlib.hexs(child[0]), vlib.hexs(child[1]), child[2]) if child else "-:-:0"
     outarg = {"run": "N", "dash": "S" + vlib.hexs(c.get("dash", "-")), "file": "S" + vlib.hexs(obs["outpath"] or "")}[c["out"]]
@@ -485,13 +486,11 @@ def property_violations(c, prog, obs, outcome, dash_bytes, preamble):
     if c["out"] == "run":
         ch = CHILD.get(c["sub"])
         run_ok = ch is not None and ch[1] == ""
-    os_ok = not (c["out"] == "file" and c["sub"] in CREATE_FAILS + ("fsize-zero-fresh", "fsize-zero-existing")) \
+    os_ok = not (c["out"] == "file" and (c["sub"] in CREATE_FAILS or (c["sub"].startswith("fsize-") and compile_ok))) \
         and not (c["out"] == "run" and c["sub"] == "missing-lua")
     should_succeed = compile_ok and run_ok and cls != "no-file-argument"
-    # 1. exit status  (under the file-size limit the verdict is left to the all-or-nothing check below)
-    if c["out"] == "file" and c["sub"].startswith("fsize-limit") and compile_ok:
-        pass
-    elif os_ok:
+    # 1. exit status
+    if os_ok:
         if (obs["status"] == 0) != should_succeed:
             v.append(("exit-status", "status %d but compilation%s %s" % (
                 obs["status"], "/execution" if c["out"] == "run" else "", "succeeded" if should_succeed else "failed")))
@@ -521,7 +520,7 @@ def property_violations(c, prog, obs, outcome, dash_bytes, preamble):
                 if not c["sub"].startswith("fsize-"):
                     tag = "file-incomplete"
                 elif obs["status"] == 0:
-                    tag = "incomplete-file-status-0"          # a short write taken for success
+                    tag = "incomplete-file-status-0"          # a short write taken for success (fixed by /repo ddb4597)
                 else:
                     tag = "incomplete-file-on-write-error"    # File::create truncated FILE, then the write failed
                 v.append((tag, "FILE holds %d bytes, the complete program has %d; status %d" % (
@@ -749,6 +748,9 @@ def always(ctx):
         by = collections.Counter(v["classifier"] for v in viols)
         for v in unknown[:3]:
             ctx.brk("property:" + v["classifier"], v["what"] + " argv=" + " ".join(v.get("argv", [])))
+        if extra.get("lua_model_unavailable"):
+            ctx.brk("oracle:no-std-trace", "the Lua model (tools/lua_run.py) could not be built/run, the --no-std trace comparison "
+                    "was not evaluated: " + extra["lua_model_unavailable"])
         return {"property_oracle": {"violations_by_classifier": dict(by), "unclassified": len(unknown),
                                     "known_classifiers": sorted(x for x in known if x), **extra},
                 "observations": [
